@@ -249,11 +249,12 @@ class IASolverBaseClass:  # pylint: disable=R0902
         if F is None and full_F is None:
             raise RuntimeError("Either 'F' or 'full_F' must be provided.")
 
-        self._clear_precoder_filter()
-
         if P is not None:
-            # Validated and copied by the setter (the caller keeps its array)
+            # Validated and copied by the setter (the caller keeps its
+            # array). A rejected power leaves the current precoders in place.
             self.P = P
+
+        self._clear_precoder_filter()
 
         if full_F is not None:
             full_F = self._as_array_of_matrices(full_F)
@@ -388,14 +389,15 @@ class IASolverBaseClass:  # pylint: disable=R0902
             numpy array) of one user. This is a 1D numpy array of 2D numpy
             arrays.
         """
-        self._clear_receive_filter()
-
         if W is None and W_H is None:
             raise RuntimeError("Either 'W' or 'W_H' must be provided.")
 
         if W is not None and W_H is not None:
             raise RuntimeError("Either 'W' or 'W_H' must be provided ("
                                "but not both of them.")
+
+        # Only a valid call may discard the current filters
+        self._clear_receive_filter()
 
         self._W = None if W is None else self._as_array_of_matrices(W)
         self._W_H = (None if W_H is None else
@@ -550,13 +552,14 @@ class IASolverBaseClass:  # pylint: disable=R0902
             Power of each user. If not provided, a value of 1 will be used
             for each user.
         """
-        self._clear_precoder_filter()
-
         if isinstance(Ns, int):
             Ns = np.ones(self.K, dtype=int) * Ns
         assert (not isinstance(Ns, int))
 
+        # The power is validated first: a rejected power must leave the
+        # current precoders in place
         self.P = P
+        self._clear_precoder_filter()
 
         # Local function that returns a normalized version of the input
         # numpy array
